@@ -116,6 +116,59 @@ def oracle(cls, ops, nqubit, real, dp=None):
     return bad
 
 
+class _Transient(Exception):
+    pass
+
+
+def fault_retry_case(rng, cls):
+    """a circuit object used directly; ONE gate-set request raises once (a transient failure of the sampler), the caller catches it and
+    issues the same build call again.  Every successful gate-set request must carry the phases and parameters it carries in a
+    faultless execution of the same build calls on a new object: a failed request leaves no trace in the object's phases.
+    Returns (history, failure | None)."""
+    from props import c11 as H11
+    n, depth = rng.randint(2, 4), 12
+    hist = [H11.random_call(rng, cls, n, bad=0.0) for _ in range(rng.randint(3, 9))]
+
+    def execute(fail_at):
+        W.RecGates.clear()
+        circ = H11.new_object(cls, n, depth)
+        gs = circ.gates
+        state = {"n": 0, "fired": False}
+        orig = gs._rec
+
+        def rec(method, dim, args):
+            state["n"] += 1
+            if fail_at is not None and state["n"] == fail_at and not state["fired"]:
+                state["fired"] = True
+                raise _Transient("transient sampling failure (injected by the check)")
+            return orig(method, dim, args)
+        gs._rec = rec
+        for c in hist:
+            try:
+                H11.do_call(circ, c)
+            except _Transient:
+                try:
+                    H11.do_call(circ, c)                     # the caller repeats the build call
+                except (IndexError, ValueError, AssertionError):
+                    return None, state
+            except (IndexError, ValueError, AssertionError):
+                return None, state                           # the history does not fit the object (e.g. grid too shallow): not a case
+        return [(c["m"], tuple(c["ph"]), tuple(c["pars"])) for c in W.RecGates.calls], state
+    clean, st0 = execute(None)
+    if clean is None or st0["n"] < 1:
+        return hist, None
+    k = rng.randint(1, st0["n"])
+    faulty, st1 = execute(k)
+    if faulty is None or not st1["fired"]:
+        return hist, None
+    if faulty != clean:
+        j = next((i for i, (a, b) in enumerate(zip(faulty, clean)) if a != b), min(len(faulty), len(clean)))
+        return hist, (f"gate-set request number {k} raised once and the build call was repeated: successful request {j} is "
+                      f"{faulty[j] if j < len(faulty) else None}, in a faultless execution of the same calls it is "
+                      f"{clean[j] if j < len(clean) else None} - the failed request left a trace in the virtual phases")
+    return hist, None
+
+
 def relabel_check(rng, n):
     """binary class: relabelling the physical qubits maps the call sequence to its image"""
     ops, labels = W.random_ops(rng, "binary", n, rng.randint(3, 10))
@@ -274,6 +327,12 @@ def main(ctx):
         ops_s, bad_s = S03.same_simulator_case(ctx.rng, cls); ctx.count()
         if bad_s:
             fails.append((cls, ops_s, None, [f"one simulator object, several circuits / circuit objects edited in place: {bad_s}"]))
+    # a transient failure of one gate-set request, the build call repeated by the caller
+    for cls in CLASSES:
+        for _ in range(12 if ctx.thorough else 4):
+            hist_f, bad_f = fault_retry_case(ctx.rng, cls); ctx.count()
+            if bad_f:
+                fails.append((cls, hist_f, None, [f"circuit object used directly, {len(hist_f)} build calls: {bad_f}", {"fault": True}]))
     # relabelling and marginals
     for _ in range(30 if ctx.thorough else 8):
         ops, ops2, bad = relabel_check(ctx.rng, ctx.rng.randint(2, 4)); ctx.count()
@@ -325,6 +384,13 @@ def main(ctx):
 def replay(ctx, path):
     rp = json.load(open(path))["replay"]
     extra = next((x for x in rp.get("failure", []) if isinstance(x, dict)), {})
+    if extra.get("fault"):
+        import random
+        for sd in range(60):
+            h, b = fault_retry_case(random.Random(sd), rp["cls"])
+            if b:
+                print(rp["cls"], "build calls", json.dumps(h)[:400]); print("oracle:", b); return 1
+        print("transient failure + repeated build call: oracle holds on 60 histories"); return 0
     if "history" in extra:
         from props import c11 as H11
         n, depth, hist = extra["history"]["n"], extra["history"]["depth"], rp["ops"]
